@@ -1,61 +1,85 @@
-(** C07 - overflow, underflow and subnormals follow IEEE exactly; no wrap-around.
-    PROVED (closed by [exact]): the exponent handed to the later stages is the SATURATION of the
-    mathematically exact decimal exponent (never a wrapped one), and saturation only happens
-    beyond +-(2^31 - 1) (proofs/ParseFacts.v); the integer-only statement of correct rounding
-    [rne_bits] (overflow to +inf at 2^emax, gradual underflow, ties to even) is equivalent to the
-    Flocq-based oracle RN (spec/RneBridge.v); see also props/C18.v for the shift-and-round
-    primitive incl. subnormals and overflow. *)
+(** C07 - overflow, underflow and subnormals follow IEEE exactly; no wrap-around.  PROVED END TO END: [C07_overflow_underflow] (+infinity exactly from 2^emax - 2^(emax-prec-1) on, +0.0 exactly up to 2^(femin-1), zero significand gives +0.0 for every exponent), [parse_float_far_small/large/zero] (exponents up to the i32 limits, where the decimal exponent SATURATES: the result is still the mathematically correct one), subnormals are part of [parse_float_correct] (RN is gradual-underflow rounding).
+    Domain and premise as in props/C01.v: [in_domain] = valid_inputb and at most 2^28 digits, every i32
+    exponent; [deep_ok] is vacuous for the compact configurations and the single residual premise for
+    the Eisel-Lemire ones (see props/C01.v).  Closed by [exact]; the model is tied to /repo by the
+    correspondence harness on every run. *)
 
-From Coq Require Import ZArith QArith List Bool.
-From ML Require Import base.RustSem model.Fmt model.Number model.Parse model.Top model.Vec model.Bigint spec.Decimal spec.Round spec.RneZ spec.RneBridge
-  gen.Consts gen.Tables gen.BTables gen.PowDump proofs.LimbVal proofs.ParseFacts proofs.Glue proofs.NoUB proofs.BigintFacts2.
+From Coq Require Import ZArith QArith Qabs List Bool Reals Qreals.
+From Coq Require Import Floats.SpecFloat.
+From Flocq Require Import Core.Core.
+From ML Require Import base.RustSem model.Fmt model.Num model.Number model.Parse model.Lemire model.Bellerophon model.Top
+  spec.Decimal spec.Round spec.RoundFacts spec.DigitsSuffice gen.Consts gen.Tables gen.BTables gen.PowDump
+  proofs.ParseFacts proofs.FastPathFacts proofs.EndToEnd proofs.EndToEnd2 proofs.EndToEnd3 proofs.EndToEnd4 proofs.EndToEnd5 proofs.EndToEnd6 proofs.EndToEnd7
+  proofs.LemireFacts6 proofs.Glue.
 Import ListNotations.
 
 Open Scope Z_scope.
 
-Theorem C07_parse_number_spec :
-  forall (b : build) (i f : list Z) (e : Z),
-         valid_inputb i f e = true ->
-         exists n : number,
-           parse_number b i f e = Ok n /\
-           0 <= nmant n < 2 ^ 64 /\
-           i32_min <= nexp n <= i32_max /\
-           (let D := digits_to_Z (i ++ f) in
-            let X := e - zlen f in
-            let s := strip0 (i ++ f) in
-            many n = (19 <? zlen s) /\
-            nmant n = digits_to_Z (firstn 19 s) /\
-            nexp n = clamp_i32 (X + Z.max 0 (zlen s - 19)) /\
-            (many n = false ->
-             nmant n = D /\ D < 10 ^ 19 /\ nexp n = clamp_i32 X /\ clamp_i32 X = Z.max i32_min X) /\
-            (many n = true ->
-             10 ^ 18 <= nmant n < 10 ^ 19 /\
-             (exists k : Z,
-                k = zlen s - 19 /\
-                1 <= k <= zlen i + zlen f - 19 /\
-                nmant n * 10 ^ k <= D < (nmant n + 1) * 10 ^ k /\ nexp n = clamp_i32 (X + k))) /\
-            (D = 0 -> nmant n = 0 /\ many n = false) /\
-            (nmant n = 0 -> D = 0) /\ (zlen i + zlen f <= 19 -> many n = false)).
-Proof. exact parse_number_spec. Qed.
+Theorem C07_C07_overflow_underflow :
+  forall (c : config) (f : format) (b : build) (i fr : list Z) (e : Z),
+         In c ALL_CONFIGS ->
+         f = F32 \/ f = F64 ->
+         in_domain i fr e ->
+         deep_ok c f b i fr e ->
+         ((overflow_thresholdQ f <= dec_value i fr e)%Q -> PF c f b i fr e = Ok (inf_bits f)) /\
+         ((dec_value i fr e <= underflow_thresholdQ f)%Q -> PF c f b i fr e = Ok 0) /\
+         (digits_to_Z (i ++ fr) = 0 -> PF c f b i fr e = Ok 0).
+Proof. exact C07_overflow_underflow. Qed.
+
+Theorem C07_parse_float_far_small :
+  forall (c : config) (f : format) (b : build) (i fr : list Z) (e : Z),
+         In c ALL_CONFIGS ->
+         f = F32 \/ f = F64 ->
+         valid_inputb i fr e = true ->
+         e - zlen fr + (zlen i + zlen fr) < -400 -> PF c f b i fr e = Ok (RN f (dec_value i fr e)).
+Proof. exact parse_float_far_small. Qed.
+
+Theorem C07_parse_float_far_large :
+  forall (c : config) (f : format) (b : build) (i fr : list Z) (e : Z),
+         In c ALL_CONFIGS ->
+         f = F32 \/ f = F64 ->
+         valid_inputb i fr e = true ->
+         0 < digits_to_Z (i ++ fr) -> 400 < e - zlen fr -> PF c f b i fr e = Ok (RN f (dec_value i fr e)).
+Proof. exact parse_float_far_large. Qed.
+
+Theorem C07_parse_float_far_zero :
+  forall (c : config) (f : format) (b : build) (i fr : list Z) (e : Z),
+         In c ALL_CONFIGS ->
+         f = F32 \/ f = F64 ->
+         valid_inputb i fr e = true ->
+         digits_to_Z (i ++ fr) = 0 -> 400 < e - zlen fr -> PF c f b i fr e = Ok (RN f (dec_value i fr e)).
+Proof. exact parse_float_far_zero. Qed.
+
+Theorem C07_parse_float_correct :
+  forall (c : config) (f : format) (b : build) (i fr : list Z) (e : Z),
+         In c ALL_CONFIGS ->
+         f = F32 \/ f = F64 ->
+         valid_inputb i fr e = true ->
+         zlen i + zlen fr <= 2 ^ 28 ->
+         (compact c = false -> no_deep_fallback_at f b (parse_spec i fr e)) ->
+         PF c f b i fr e = Ok (RN f (dec_value i fr e)).
+Proof. exact parse_float_correct. Qed.
+
+Theorem C07_overflow_threshold_iff :
+  forall f : format,
+         sfmt_ok f = true -> forall v : Q, (0 <= v)%Q -> RN f v = inf_bits f <-> (overflow_thresholdQ f <= v)%Q.
+Proof. exact overflow_threshold_iff. Qed.
+
+Theorem C07_underflow_threshold_iff :
+  forall f : format,
+         sfmt_ok f = true -> forall v : Q, (0 <= v)%Q -> RN f v = 0 <-> (v <= underflow_thresholdQ f)%Q.
+Proof. exact underflow_threshold_iff. Qed.
 
 Theorem C07_saturation_is_far :
   forall x : Z, clamp_i32 x <> x -> 2 ^ 31 - 1 <= Z.abs x.
 Proof. exact saturation_is_far. Qed.
 
-Theorem C07_clamp_i32_cases :
-  forall x : Z,
-         x < i32_min /\ clamp_i32 x = i32_min \/
-         i32_min <= x <= i32_max /\ clamp_i32 x = x \/ i32_max < x /\ clamp_i32 x = i32_max.
-Proof. exact clamp_i32_cases. Qed.
 
-Theorem C07_rne_bits_iff_RN :
-  forall f : format,
-         bfmt_ok f = true ->
-         forall n d bits : Z, 0 <= n -> 0 < d -> rne_bits f n d bits <-> RN f (n # Z.to_pos d) = bits.
-Proof. exact rne_bits_iff_RN. Qed.
-
-
-Print Assumptions C07_parse_number_spec.
+Print Assumptions C07_C07_overflow_underflow.
+Print Assumptions C07_parse_float_far_small.
+Print Assumptions C07_parse_float_far_large.
+Print Assumptions C07_parse_float_far_zero.
+Print Assumptions C07_parse_float_correct.
+Print Assumptions C07_overflow_threshold_iff.
+Print Assumptions C07_underflow_threshold_iff.
 Print Assumptions C07_saturation_is_far.
-Print Assumptions C07_clamp_i32_cases.
-Print Assumptions C07_rne_bits_iff_RN.
